@@ -860,6 +860,10 @@ class Engine:
         if k == "repeat":
             a = self.eval_operand(fr, st, rv["a"])
             n = rv.get("n")
+            if n is None and rv.get("np"):
+                cv = fr.sub.get("const " + str(rv["np"]))   # `[0u8; N]` with N a const parameter of this call path
+                if isinstance(cv, int) and not isinstance(cv, bool):
+                    n = cv
             if n is not None and n <= 32:
                 return Arr(None, tuple(a for _ in range(n)))
             return ("ANY", "repeat")
